@@ -155,6 +155,9 @@ def from_basic(node, b, ctx):
                     return UNSPEC
                 out.append(r.v)
             return OK(out if isinstance(b, list) else tuple(out))
+        if item is not None and item["kind"] not in ("any", "schema", "configtype") and (isinstance(b, (str, bytes, dict, set, frozenset)) or b in (0, False)):
+            # the load route wraps any iterable (and any falsy value) into the typed list: the documentation leaves it open
+            return UNSPEC
         return OK(b)
     if k == "dict":
         kf, vf = node.get("kf"), node.get("vf")
@@ -172,8 +175,8 @@ def from_basic(node, b, ctx):
                 except TypeError:
                     return UNSPEC
             return OK(out)
-        if (kf or vf) and isinstance(b, (list, tuple)):
-            return UNSPEC   # a sequence of pairs where a map is expected: documentation leaves it open
+        if (kf or vf) and (isinstance(b, (list, tuple)) or (not b and b is not None and not isinstance(b, dict))):
+            return UNSPEC   # a sequence of pairs, or a falsy scalar, where a map is expected: documentation leaves it open
         return OK(b)
     return OK(b)
 
